@@ -99,6 +99,12 @@ claim("C14",
       "TLA+ memo specification; recorded process runs under an environment matrix validated by TLC", "DESIGN.md 5/C14")
 
 
+claim("C18",
+      "PyApi.tla states _extend_args as a machine and the keyword -> option rule from the CLI contract; TLC checks the table invariant (every keyword of the four functions, read from the current Python signatures, maps to an option that the sub-command of the current build accepts with the right arity, read from the clap definitions) and generates every call with one or two keywords in each value class together with its expected argv. The Python harness runs the real module: captured argv = expected argv; unpatched against the built binary the return value equals the stripped stdout of the equivalent command line and failing commands raise.",
+      "Finite: 41 + 27 + 2 + 4 keywords x value classes (quick), all keyword pairs (thorough).",
+      GEN, "DESIGN.md 5/C18")
+
+
 def main():
     m = {
         "version": 1,
